@@ -8,7 +8,7 @@ LEAF = {'ST': 'x', 'TX': 'x', 'FT': 'x', 'ID': 'x', 'IS': 'x', 'NM': '1', 'SI': 
 
 def leaf_token(v, datatype, table=None):
     if datatype in ('ID', 'IS') and table:
-        tab = T.LIBS[v].TABLES.get(table)
+        tab = getattr(T.LIBS[v], 'TABLES', {}).get(table)
         if tab and len(tab) > 1 and tab[1]:
             vals = sorted(x for x in tab[1] if x and all(ch not in x for ch in '|^~\\&#'))
             if vals:
@@ -25,8 +25,9 @@ def component_text(v, ref, sep_children='&'):
 
 def _children_text(v, children, sep, render):
     parts = []
-    required = [k for k, c in enumerate(children) if c[2][0] >= 1]
-    wanted = required or [0]
+    required = [k for k, c in enumerate(children) if c[2][0] >= 1 and c[2][1] != 0]
+    # nothing required: fill the first child that may occur (max != 0) and has a non-empty token
+    wanted = required or [k for k, c in enumerate(children) if c[2][1] != 0 and render(c[1]) != ''][:1]
     for k, c in enumerate(children):
         parts.append(render(c[1]) if k in wanted else '')
     while parts and parts[-1] == '':
@@ -53,6 +54,8 @@ def segment_text(v, s, which='required', skip=None, dup=None):
         n = T.child_number(name)
         if name == skip:
             continue
+        if mx == 0:
+            continue          # withdrawn field: may not occur
         if which == 'all' or mn >= 1:
             t = field_text(v, ref)
             if t == '':
@@ -104,9 +107,31 @@ def message_nodes(ref, which='required', top=True):
             out.append(('SEG', name))
         else:
             body = message_nodes(cref, which, False)
+            if not body and mn >= 1:
+                body = _force_first(cref)     # required group whose members are all optional
             if body:
                 out.append(('GRP', name, body))
     return out
+
+
+def _force_first(ref):
+    for (name, cref, (mn, mx), kind) in ref[1]:
+        if kind == 'SEG':
+            return [('SEG', name)]
+        inner = _force_first(cref)
+        if inner:
+            return [('GRP', name, inner)]
+    return []
+
+
+def structure_names(ref, acc=None):
+    acc = [] if acc is None else acc
+    for c in ref[1]:
+        if c[3] == 'SEG':
+            acc.append(c[0])
+        else:
+            structure_names(c[1], acc)
+    return acc
 
 
 def flatten(nodes):
